@@ -756,10 +756,13 @@ class Condition(ConditionLike):
 
 
 def _arg_to_json_like(arg, nested=False):
-    """Write `DataPath` arguments as data path specs, as `from_spec` reads them: the
-    argument itself, or the items of a list/mapping of arguments."""
+    """Write `DataPath` arguments as data path specs, and escape literal mappings that
+    would be read back as data path specs, as `from_spec` reads them: the argument
+    itself, or the items of a list/mapping of arguments."""
     if isinstance(arg, valida.datapath.DataPath):
         return arg.to_spec()
+    elif isinstance(arg, dict) and valida.datapath.DataPath.is_spec_like(arg):
+        return valida.datapath.DataPath.escape_spec_like(arg)
     elif isinstance(arg, dict) and not nested:
         return {k: _arg_to_json_like(v, nested=True) for k, v in arg.items()}
     elif isinstance(arg, (list, tuple)) and not nested:
